@@ -310,3 +310,4 @@ LEVEL_TEXT = ('Every two-level container shape with lengths 0..4 (8 container ki
               'N from 1 to max length + 1, None and 10**9; the evaluated output must equal the reference truncation and the notices must match the expected '
               '(K, bracket depth) sequence exactly.')
 LEVEL_NOTE = 'Lengths are bounded by 4 and depth by 3; widths {1,20,79}; in the quick tier width/sort are sampled per shape and N.'
+ANCHORS = ['prettyprinter.pretty_bracketable_iterable', 'prettyprinter.pretty_dict', 'prettyprinter.pretty_frozenset', 'utils.take', 'prettyprinter.commentdoc']
